@@ -156,11 +156,11 @@ Theorem hash_table_l : forall c, no_error c -> explicit_flag c GHash = tN ->
   prov_at (decide c) Dh = Some
     (if auto_detect c && class_defines c Dh then untouched c Dh
      else if negb (generate c GEq) then untouched c Dh
-     else if c_frozen c then pG else pZ).
+     else if effectively_frozen c then pG else pZ).
 Proof.
   intros c Hn Hf. rewrite (prov_at_decide c Dh Hn). f_equal.
   unfold spec_found, untouched, spec_written, spec_hash. rewrite Hf.
-  destruct (auto_detect c && class_defines c Dh), (negb (generate c GEq)), (c_frozen c); reflexivity.
+  destruct (auto_detect c && class_defines c Dh), (negb (generate c GEq)), (effectively_frozen c); reflexivity.
 Qed.
 
 (** Methods defined by a base class never influence any decision. *)
@@ -231,39 +231,46 @@ Definition with_base (c : cfg) (b : basek) : cfg :=
     (c_eq c) (c_order c) (c_hash c) (c_uhash c) (c_gs c) (c_ma c) (c_own c) (c_inh c) b.
 
 Theorem base_kind_irrelevant_l : forall c b,
-  base_generated_pair b = base_generated_pair (c_base c) -> decide (with_base c b) = decide c.
+  base_generated_pair b = base_generated_pair (c_base c) ->
+  base_frozen b = base_frozen (c_base c) -> decide (with_base c b) = decide c.
 Proof.
-  intros [a ad sl fr ini rp st cmp eq ord h uh gs ma own inh bk] b H.
+  intros [a ad sl fr ini rp st cmp eq ord h uh gs ma own inh bk] b H HF.
   set (c1 := C a ad sl fr ini rp st cmp eq ord h uh gs ma own inh b).
   set (c0 := C a ad sl fr ini rp st cmp eq ord h uh gs ma own inh bk).
-  change (with_base c0 b) with c1. change (c_base c0) with bk in H.
+  change (with_base c0 b) with c1. change (c_base c0) with bk in H, HF.
   assert (forall g, generate c1 g = generate c0 g) as G.
   { intros g. unfold generate, documented_default.
     change (c_base c1) with b. change (c_base c0) with bk. rewrite H. reflexivity. }
+  assert (effectively_frozen c1 = effectively_frozen c0) as Z.
+  { unfold effectively_frozen. change (c_base c1) with b. change (c_base c0) with bk. rewrite HF. reflexivity. }
   rewrite !decision_table_l. unfold spec.
-  assert (spec_error c1 = spec_error c0) as -> by (unfold spec_error; rewrite (G GRepr); reflexivity).
+  assert (spec_error c1 = spec_error c0) as -> by (unfold spec_error; rewrite (G GRepr), Z; reflexivity).
   destruct (spec_error c0); [reflexivity|].
-  f_equal. apply map_ext. intros d. unfold spec_found, spec_written, spec_hash. rewrite !G. reflexivity.
+  f_equal. apply map_ext. intros d. unfold spec_found, spec_written, spec_hash. rewrite !G, !Z. reflexivity.
 Qed.
 
 Theorem generated_base_pair_only_default_l : forall c b, no_error c ->
+  base_frozen b = base_frozen (c_base c) ->
   (forall d, d <> Dg -> d <> Dst -> prov_at (decide (with_base c b)) d = prov_at (decide c) d) /\
   (c_gs c <> tN \/ auto_detect c && existsb (body_defines c) [Dg; Dst] = true ->
      decide (with_base c b) = decide c).
 Proof.
-  intros [a ad sl fr ini rp st cmp eq ord h uh gs ma own inh bk] b Hn.
+  intros [a ad sl fr ini rp st cmp eq ord h uh gs ma own inh bk] b Hn HF.
   set (c1 := C a ad sl fr ini rp st cmp eq ord h uh gs ma own inh b).
   set (c0 := C a ad sl fr ini rp st cmp eq ord h uh gs ma own inh bk).
+  change (c_base c0) with bk in HF.
   assert (forall g, g <> GPickle -> generate c1 g = generate c0 g) as G.
   { intros g Hg. unfold generate, documented_default. destruct g; try congruence; reflexivity. }
+  assert (effectively_frozen c1 = effectively_frozen c0) as Z.
+  { unfold effectively_frozen. change (c_base c1) with b. change (c_base c0) with bk. rewrite HF. reflexivity. }
   assert (spec_error c1 = spec_error c0) as E.
-  { unfold spec_error. rewrite (G GRepr) by discriminate. reflexivity. }
+  { unfold spec_error. rewrite (G GRepr), Z by discriminate. reflexivity. }
   assert (no_error c1) as Hn1 by (unfold no_error; rewrite E; exact Hn).
   split.
   - intros d H1 H2. change (with_base c0 b) with c1.
     rewrite (prov_at_decide c1 d Hn1), (prov_at_decide c0 d Hn). f_equal.
     unfold spec_found, spec_written, spec_hash.
-    rewrite !(G GInit), !(G GRepr), !(G GEq), !(G GOrder), !(G GMatch) by discriminate.
+    rewrite !(G GInit), !(G GRepr), !(G GEq), !(G GOrder), !(G GMatch), !Z by discriminate.
     destruct d; try congruence; reflexivity.
   - intros H. change (with_base c0 b) with c1. rewrite !decision_table_l. unfold spec. rewrite E.
     destruct (spec_error c0); [reflexivity|]. f_equal. apply map_ext. intros d.
@@ -277,28 +284,58 @@ Proof.
       change (auto_detect c1) with (auto_detect c0).
       apply andb_true_iff in H as [-> ->]. reflexivity. }
     unfold spec_found, spec_written, spec_hash.
-    rewrite !(G GInit), !(G GRepr), !(G GEq), !(G GOrder), !(G GMatch), ?GP by discriminate.
+    rewrite !(G GInit), !(G GRepr), !(G GEq), !(G GOrder), !(G GMatch), ?GP, !Z by discriminate.
     reflexivity.
 Qed.
+
+(** Frozenness is inherited: below a frozen attrs base the hash default and the frozen
+    [__setattr__]/[__delattr__] are those of a class decorated with [frozen=True] — unless
+    the body's own [__setattr__] hides the base's. *)
+Definition with_frozen (c : cfg) (f : bool) : cfg :=
+  C (c_api c) (c_ad c) (c_slots c) f (c_init c) (c_repr c) (c_str c) (c_cmp c)
+    (c_eq c) (c_order c) (c_hash c) (c_uhash c) (c_gs c) (c_ma c) (c_own c) (c_inh c) (c_base c).
+
+Theorem frozen_is_inherited_l : forall c,
+  base_frozen (c_base c) = true -> body_defines c Dsa = false ->
+  decide (with_frozen c false) = decide (with_frozen c true).
+Proof.
+  intros [a ad sl fr ini rp st cmp eq ord h uh gs ma own inh bk] HB HS.
+  set (c1 := C a ad sl false ini rp st cmp eq ord h uh gs ma own inh bk).
+  set (c0 := C a ad sl true ini rp st cmp eq ord h uh gs ma own inh bk).
+  change (with_frozen _ false) with c1. change (with_frozen _ true) with c0.
+  assert (effectively_frozen c1 = effectively_frozen c0) as Z.
+  { unfold body_defines in HS. cbn in HB, HS.
+    unfold effectively_frozen, class_defines, body_defines, c1, c0. cbn. rewrite HB, HS. reflexivity. }
+  rewrite !decision_table_l. unfold spec.
+  assert (spec_error c1 = spec_error c0) as -> by (unfold spec_error; rewrite Z; reflexivity).
+  destruct (spec_error c0); [reflexivity|].
+  f_equal. apply map_ext. intros d. unfold spec_found, spec_written, spec_hash. rewrite !Z. reflexivity.
+Qed.
+
+Example ex_frozen_base_hash_generated :
+  let c := C AttrS None (Some false) false tN tN None tN tN None tN tN tN None no_own_ no_own_ (BAttrs false false true true) in
+  no_error c /\ prov_at (decide c) Dh = Some pG /\ prov_at (decide c) Dsa = Some pG /\
+  prov_at (decide (with_base c (BAttrs false false true false))) Dh = Some pZ.
+Proof. repeat split; reflexivity. Qed.
 
 (** The rule itself: below a base with a generated pair, without flag and without an
     auto-detected own method, the class gets its own pair unless the body shadows
     [__getstate__] (and the class is not slotted). *)
 Example ex_inherited_pair_regenerated :
-  let c := C AttrS None (Some false) false tN tN None tN tN None tN tN tN None no_own_ no_own_ (BAttrs true true true) in
+  let c := C AttrS None (Some false) false tN tN None tN tN None tN tN tN None no_own_ no_own_ (BAttrs true true true false) in
   no_error c /\ prov_at (decide c) Dg = Some pG /\ prov_at (decide c) Dst = Some pG /\
   prov_at (decide (with_base c BPlain)) Dg = Some pA.
 Proof. repeat split; reflexivity. Qed.
 
 Example ex_inherited_pair_flag_false_wins :
-  let c := C AttrS None (Some false) false tN tN None tN tN None tN tN tF None no_own_ no_own_ (BAttrs true true true) in
+  let c := C AttrS None (Some false) false tN tN None tN tN None tN tN tF None no_own_ no_own_ (BAttrs true true true false) in
   no_error c /\ prov_at (decide c) Dg = Some pA /\ prov_at (decide c) Dst = Some pA.
 Proof. repeat split; reflexivity. Qed.
 
 Example ex_inherited_pair_own_setstate_wins :
   let c := C Define None (Some false) false tN tN None tN tN None tN tN tN None
              (DS false false false false false false false false false false false true false false false)
-             no_own_ (BAttrs true true true) in
+             no_own_ (BAttrs true true true false) in
   no_error c /\ prov_at (decide c) Dg = Some pA /\ prov_at (decide c) Dst = Some pU.
 Proof. repeat split; reflexivity. Qed.
 
@@ -334,7 +371,7 @@ Definition group_of (d : dn) : option group :=
 Definition told (c : cfg) (d : dn) : bool :=
   match d with
   | Ds => str_arg c
-  | Dsa | Dda => c_frozen c
+  | Dsa | Dda => effectively_frozen c
   | Da => true
   | Dm => false
   | _ => match group_of d with
